@@ -402,28 +402,51 @@ def oracle(ctx: vlib.Ctx, n_schemas: int, n_values: int, focus: str | None = Non
 # (M) correspondence: Format.v pack/unpack/norm/approx/representable vs implementation + libraries
 # ---------------------------------------------------------------------------
 
+def innermost_missing_field(e: BaseException):
+    """field name of the deepest MissingField in the exception chain (nested dataclasses wrap it)"""
+    hit, seen = None, 0
+    while e is not None and seen < 50:
+        if type(e).__name__ == "MissingField":
+            hit = e.field_name
+        e = e.__cause__ or e.__context__
+        seen += 1
+    return hit
+
+
 def correspondence_cases(ctx: vlib.Ctx, n_schemas: int, n_values: int):
     rng = ctx.rng
     cases, descr = [], []
+    fmt_dialects = {F: L.coq_format_dialect(F) for F in FORMATS}
     for si in range(n_schemas):
         jsonkind = rng.choice(["json", "orjson"])
-        # a third of the schemas enable ADD_DIALECT_SUPPORT and are driven with a call-time dialect that covers
-        # nothing: the model's prediction is unchanged (the format's own dialect must still apply)
-        dm = rng.random() < 0.35
+        # 40% of the schemas enable ADD_DIALECT_SUPPORT and are driven with a call-time dialect: one that covers
+        # nothing, or one that overrides a type some format dialect declares native (both directions)
+        dm = rng.random() < 0.4
         S = L.Schema(rng, jsonkind, small=True, dialect_mode=dm)
-        root = S.new_dc(rng.choice([1, 2, 2, 3]), root=True)
+        if rng.random() < 0.12:
+            sb = S.new_dc(1, force_self=True)
+            root = S.new_dc(rng.choice([1, 2]), root=True, base=sb.name)
+        else:
+            root = S.new_dc(rng.choice([1, 2, 2, 3]), root=True)
         src = S.source()
         modname = f"c04_corr_{ctx.seed}_{si}"
         try:
             mod = L.load_module(src, modname)
             rootcls = mod.__dict__[root.name]
             tyc = L.coq_ty(root, S)
+            envc = L.coq_env(S)
+            xname = rng.choice(list(L.MODEL_USER_DIALECTS)) if dm else None
+            user = L.MODEL_USER_DIALECTS[xname] if dm else []
+            userc = "[" + "; ".join(f"({k}, EDict (Some {i}%nat) (Some {i}%nat))" for k, i, _ in user) + "]"
+            for kk in sorted(L.kinds_deep(root, S)):
+                ctx.hist("correspondence_type_kinds", kk)
             for vi in range(n_values):
                 v = L.gen_value(root, S, mod, rng)
-                tab, unrepr = [], {}
-                pvc = L.coq_pv(v, root, S, tab, unrepr)
+                tab, unrepr, utab = [], {}, []
+                pvc = L.coq_pv(v, S, tab, unrepr, utab, user)
                 tabc = "[" + "; ".join(f"({k}, {vlib.coq_str(p)}, {vlib.coq_str(t)})" for k, p, t in dict.fromkeys(tab)) + "]"
-                xd = mod.__dict__["XD_empty"] if dm else None
+                utabc = "[" + "; ".join(f"({u}%nat, {k}, {vlib.coq_str(p)}, {vlib.coq_str(t)})" for u, k, p, t in dict.fromkeys(utab)) + "]"
+                xd = mod.__dict__[xname] if dm else None
                 basic = v.to_dict(dialect=xd) if dm else v.to_dict()
                 for F in FORMATS:
                     if F in ("json", "orjson") and F != jsonkind:
@@ -434,6 +457,8 @@ def correspondence_cases(ctx: vlib.Ctx, n_schemas: int, n_values: int):
                     entry = L.Entry(F, "mixin", rootcls, dialect=xd)
                     nb = entry.native_tree(v)
                     why = L.outside_subset(F, v)
+                    if why == "sub-minute-utc-offset" and xname == "XD_datetime":
+                        why = L.outside_subset(F, v, skip_datetime_offsets=True)   # rendered as text by the caller's strategy
                     parsed, dec = "None", "DecOther"
                     if why is None:
                         doc = entry.encode(v)
@@ -442,15 +467,19 @@ def correspondence_cases(ctx: vlib.Ctx, n_schemas: int, n_values: int):
                             w = entry.decode(doc)
                             dec = "DecSame" if L.same(w, v) else "DecOther"
                         except Exception as e:
-                            if type(e).__name__ == "MissingField":
-                                dec = f"(DecMissing {vlib.coq_str(e.field_name)})"
+                            mf = innermost_missing_field(e)
+                            if mf is not None:
+                                dec = f"(DecMissing {vlib.coq_str(mf)})"
                     bad = "[" + "; ".join(f"({k}, {vlib.coq_str(p)})" for k, p in dict.fromkeys(unrepr.get(F, []))) + "]"
-                    cases.append("{| c_fmt := %s; c_ty := %s; c_val := %s; c_tab := %s; c_unrepr := %s; c_pack := %s; "
+                    fe, fo = fmt_dialects[F]
+                    cases.append("{| c_fmt := %s; c_env := %s; c_ty := %s; c_val := %s; c_tab := %s; c_utab := %s; c_user := %s; "
+                                 "c_fmt_entries := %s; c_fmt_omit := %s; c_unrepr := %s; c_pack := %s; "
                                  "c_basic := %s; c_insub := %s; c_parsed := %s; c_dec := %s |}" % (
-                                     L.FMT[F], tyc, pvc, tabc, bad, L.coq_bv(nb), L.coq_bv(basic),
+                                     L.FMT[F], envc, tyc, pvc, tabc, utabc, userc, fe, fo, bad, L.coq_bv(nb), L.coq_bv(basic),
                                      "true" if why is None else "false", parsed, dec))
-                    descr.append({"format": F, "src": src, "root": root.name, "value_src": L.vsrc(v), "outside": why, "dec": dec})
-                    ctx.hist("correspondence_formats", F + (":outside-subset" if why else "") + (":call-dialect" if dm else ""))
+                    descr.append({"format": F, "src": src, "root": root.name, "value_src": L.vsrc(v), "outside": why, "dec": dec,
+                                  "dialect": xname})
+                    ctx.hist("correspondence_formats", F + (":outside-subset" if why else "") + (f":{xname}" if dm else ""))
         except Exception as e:   # the implementation raised where the model is total: keep going, report
             ctx.hist("correspondence_errors", type(e).__name__)
             if not any(u["name"].startswith("correspondence: implementation raised") for u in ctx.unshown):
@@ -464,8 +493,8 @@ def correspondence_cases(ctx: vlib.Ctx, n_schemas: int, n_values: int):
 def correspondence(ctx: vlib.Ctx):
     cases, descr = correspondence_cases(ctx, ctx.budget(40, 400), ctx.budget(3, 4))
     name = "format-model-vs-impl-and-libraries"
-    bad, log = vlib.coq_bad_idx("c04_fmt", "Format FormatCases", "", "", cases, "case_ok", "fcase", shard=120,
-                                needs=["theories/Format.vo", "theories/FormatCases.vo"])
+    bad, log = vlib.coq_bad_idx("c04_fmt", "Fmt FmtCases", "", "", cases, "case_ok", "fcase", shard=100,
+                                needs=["theories/Fmt.vo", "theories/FmtCases.vo"])
     ctx.count(n=len(cases))
     if bad is None:
         ctx.correspondence(name, len(cases), -1, log)
@@ -570,8 +599,9 @@ def run(ctx: vlib.Ctx):
         "edge-biased conforming values x 5 formats x {mixin, mixin-str, codec object, one-shot function}; a case is "
         "distinct by (shape annotation, format, entry point, value source); values outside the format's representable "
         "subset (c04lib.outside_subset, counted under coverage.outside_subset) are skipped for that format only. "
-        "correspondence: small-grammar modules (scalars, bytes/bytearray, datetime-likes, UUID, Decimal, List, Dict[str,.], "
-        "Optional, nested dataclasses) x values x 4 mixin formats, model run by vm_compute")
+        "correspondence: model-grammar modules (scalars, bytes/bytearray, datetime-likes, UUID, Decimal, Any, List, Dict[str,.], "
+        "Optional, nested / inherited / self-referencing dataclasses incl. typing.Self, discriminated unions) x values x 4 mixin "
+        "formats x {no caller dialect, XD_empty, XD_bytes, XD_bytearray, XD_datetime at call time}, model run by vm_compute")
     ctx.assumptions += [
         "fmt_law (hypothesis of C04_roundtrip_partial / C04_doc_is_basic / C04_doc_exact): parse_F(ser_F(b)) = norm_F(b) "
         "for the third-party libraries json, orjson, yaml (CSafeLoader/CDumper), msgpack, tomli_w/tomllib, up to mapping "
@@ -583,22 +613,34 @@ def run(ctx: vlib.Ctx):
         "and on sampled type arguments)",
     ]
     ctx.trusted += [
-        "Format.v is a small model (scalars, text-rendered leaves, list, dict with str keys, Optional, nested records): "
-        "NamedTuple, TypedDict, unions, enums, sets, tuples, non-str keys, inheritance and the codec (non-mixin) entry "
-        "points are covered by the oracle only",
+        "Fmt.v models: class table with nested / inherited(flattened) / self-referencing dataclasses (by name and typing.Self), "
+        "discriminated unions (Annotated Discriminator, str tags), Literal tags, Any positions, lists, str-keyed mappings, "
+        "Optional, text-rendered leaves, the format dialects merged with a caller's dialect (both directions). NamedTuple, "
+        "TypedDict, plain unions, enums, sets, tuples, non-str keys, class-level discriminators / base-typed polymorphic "
+        "fields and the codec (non-mixin) entry points are covered by the oracle only",
         "the format libraries and the stdlib leaf codecs are oracles with assumed laws (hypotheses of the theorems)",
         "tools/kernels/k11_method_names.py: translator extension (f-strings over str, +=, str-subclass construction) "
         "and coq/theories/PyK_names.v",
     ]
-    ctx.theorems("props/C04_formats.vo", ["C04_roundtrip_partial", "C04_roundtrip_refuted", "C04_doc_is_basic", "C04_doc_exact"])
-    ctx.theorems("props/C04_names.vo", ["C04_method_names_injective", "C04_method_names_total"], kernels=["K11"])
-    ctx.checker_cmd = f"make -C {vlib.COQ} props/C04_formats.vo props/C04_names.vo (coqc 8.16.1, full .vo build)"
+    ctx.theorems("props/C04_formats.vo", ["C04_roundtrip_partial", "C04_roundtrip_refuted", "C04_format_dialects_coherent",
+                                          "C04_doc_is_basic", "C04_doc_exact"])
+    ctx.theorems("props/C04_names.vo", ["C04_method_names_injective", "C04_method_names_total",
+                                        "C04_method_table_no_overwrite"], kernels=["K11"])
+    ctx.theorems("props/C04_dialects.vo", ["C04_merge_strategies_is_model_clause", "C04_merge_keeps_format_omit_none"],
+                 kernels=["K2", "K13"])
+    ctx.checker_cmd = (f"make -C {vlib.COQ} props/C04_formats.vo props/C04_names.vo props/C04_dialects.vo "
+                       "(coqc 8.16.1, full .vo build); thorough: coqchk -o on the three files")
     if not ctx.quick():     # second opinion on the compiled proofs
-        rc, log, _ = vlib.run(["timeout", "600", "coqchk", "-silent", "-Q", "theories", "Verif", "-Q", "gen", "VerifGen",
-                               "-Q", "props", "VerifProps", "VerifProps.C04_formats", "VerifProps.C04_names"],
-                              cwd=vlib.COQ, timeout=630)
-        ctx.obligation("coqchk VerifProps.C04_formats VerifProps.C04_names", rc == 0, log[-600:])
-        if rc != 0:
+        rc, log, _ = vlib.run(["timeout", "900", "coqchk", "-o", "-silent", "-Q", "theories", "Verif", "-Q", "gen", "VerifGen",
+                               "-Q", "props", "VerifProps", "VerifProps.C04_formats", "VerifProps.C04_names",
+                               "VerifProps.C04_dialects"], cwd=vlib.COQ, timeout=930)
+        import re as _re
+        m = _re.search(r"\* Axioms:\s*(.*?)\n\s*\n", log, _re.S)
+        axioms = " ".join(m.group(1).split()) if m else "(summary not found)"
+        ok = rc == 0 and axioms == "<none>"
+        ctx.obligation("coqchk -o VerifProps.C04_formats C04_names C04_dialects", ok, f"Axioms: {axioms} | " + log[-300:])
+        ctx.trusted.append(f"coqchk -o on the C04 props files: Axioms: {axioms}")
+        if not ok:
             ctx.not_shown("coqchk on the C04 props", log[-1000:])
     k11_validation(ctx)
     correspondence(ctx)
